@@ -135,6 +135,8 @@ pub struct StepInfo {
     pub carrier: Carrier,
     pub tcp: Option<TcpInfo>,
     pub tcb_len: usize,
+    /// resident memory of the node (KiB) where it was sampled
+    pub rss_kb: Option<u64>,
     pub epoch: u32,
     pub clock: u64,
     /// table size the model expects after this step (number of flows validated in this epoch)
@@ -274,6 +276,7 @@ impl<'h> Analysis<'h> {
                     carrier: car,
                     tcp: None,
                     tcb_len: obs.tcb_len,
+                    rss_kb: obs.rss_kb,
                     epoch: r.epoch,
                     clock: r.clock,
                     model_tcb: 0,
